@@ -3,6 +3,7 @@ package c07
 import (
 	"bufio"
 	"bytes"
+	"compress/gzip"
 	"fmt"
 	"io"
 	"math/rand"
@@ -10,6 +11,7 @@ import (
 	"net/http"
 	"net/http/httptest"
 	"net/url"
+	"regexp"
 	"sort"
 	"strings"
 	"sync"
@@ -54,8 +56,9 @@ type chain struct {
 	hits    int64
 	up      *httptest.Server
 	px      *httptest.Server
-	table   atomic.Value // route.Table
-	matcher atomic.Value // string: the configured proxy.matcher
+	pxz     *httptest.Server // compression configured
+	table   atomic.Value     // route.Table
+	matcher atomic.Value     // string: the configured proxy.matcher
 	noroute int
 }
 
@@ -83,17 +86,25 @@ func newChain() *chain {
 		}
 	}))
 	cache := route.NewGlobCache(100)
+	lookup := func(r *http.Request) *route.Target {
+		m, _ := c.matcher.Load().(string)
+		if m == "" {
+			m = "prefix"
+		}
+		return c.table.Load().(route.Table).Lookup(r, "", route.Picker["rr"], route.Matcher[m], cache, false)
+	}
 	c.px = httptest.NewServer(&proxy.HTTPProxy{
 		Stats:     wire.Stats(),
 		Config:    config.Proxy{NoRouteStatus: 0},
 		Transport: &http.Transport{DisableCompression: true, MaxIdleConnsPerHost: 4},
-		Lookup: func(r *http.Request) *route.Target {
-			m, _ := c.matcher.Load().(string)
-			if m == "" {
-				m = "prefix"
-			}
-			return c.table.Load().(route.Table).Lookup(r, "", route.Picker["rr"], route.Matcher[m], cache, false)
-		},
+		Lookup:    lookup,
+	})
+	// the same proxy with proxy.gzip.contenttype configured
+	c.pxz = httptest.NewServer(&proxy.HTTPProxy{
+		Stats:     wire.Stats(),
+		Config:    config.Proxy{GZIPContentTypes: regexp.MustCompile(`^(text/.*|application/json)(;.*)?$`)},
+		Transport: &http.Transport{DisableCompression: true, MaxIdleConnsPerHost: 4},
+		Lookup:    lookup,
 	})
 	return c
 }
@@ -300,6 +311,10 @@ func genUpstreamResp(t *rapid.T, method string) upstreamResp {
 		val := rapid.SampledFrom([]string{"a=1; Path=/", "b=2; HttpOnly", "v", "text/plain", "no-cache", "\"tag\"", "/elsewhere?x=1", "Basic realm=\"r\"", "Accept", "de, en"}).Draw(t, "rhval")
 		r.header = append(r.header, [2]string{name, val})
 	}
+	if rapid.IntRange(0, 5).Draw(t, "preencoded") == 0 {
+		// the upstream's body is already encoded (the bytes are opaque to a proxy)
+		r.header = append(r.header, [2]string{"Content-Encoding", rapid.SampledFrom([]string{"br", "deflate", "gzip", "zstd", "identity"}).Draw(t, "cenc")})
+	}
 	if r.status != 204 && r.status != 304 && method != "HEAD" {
 		body := genBody(t, "respbody", hx.Pick(262144, 4<<20))
 		n := rapid.IntRange(1, 5).Draw(t, "nwrites")
@@ -393,7 +408,14 @@ func TestC07PassThrough(t *testing.T) {
 		c.mu.Lock()
 		c.resp, c.seen = resp, nil
 		c.mu.Unlock()
-		status, hdr, body, err := exchange(c.px.Listener.Addr().String(), q.wire(), q.method)
+		front, gz := c.px, false
+		if rapid.IntRange(0, 2).Draw(t, "gzip-configured") == 0 {
+			front, gz = c.pxz, true
+			if rapid.IntRange(0, 3).Draw(t, "client-accepts-gzip") > 0 && !hasHeader(q.headers, "Accept-Encoding") {
+				q.headers = append(q.headers, [2]string{"Accept-Encoding", rapid.SampledFrom([]string{"gzip", "gzip, deflate, br"}).Draw(t, "ae")})
+			}
+		}
+		status, hdr, body, err := exchange(front.Listener.Addr().String(), q.wire(), q.method)
 		hx.Eval()
 		ctx := fmt.Sprintf("%s\nrequest: %s %s?%s Host=%s headers=%q body=%d bytes chunked=%v%v\nupstream answer: %d headers=%q", cfg, q.method, q.rawPath, q.query, q.host, q.headers, len(q.body), q.chunked, q.chunkCut, resp.status, resp.header)
 		if resp.abort {
@@ -403,7 +425,7 @@ func TestC07PassThrough(t *testing.T) {
 			if err == nil {
 				t.Fatalf("the upstream died after %d body bytes without terminating the body, but the client was given a complete response (status %d, %d body bytes)\n%s", len(sent), status, len(body), ctx)
 			}
-			if status != 0 && !bytes.HasPrefix(sent, body) {
+			if status != 0 && !bytes.HasPrefix(sent, body) && !(gz && hdr.Get("Content-Encoding") == "gzip") {
 				t.Fatalf("the bytes the client received before the abort are not a prefix of what the upstream sent\n%s", ctx)
 			}
 			hx.Class("upstream-dies-mid-body")
@@ -470,8 +492,32 @@ func TestC07PassThrough(t *testing.T) {
 		for _, kv := range resp.header {
 			wantResp.Add(kv[0], kv[1])
 		}
+		if gz {
+			// with compression configured fabio announces Vary: Accept-Encoding, and it may compress a
+			// response the upstream sent unencoded: the client then decodes it and must find the same bytes
+			delete(wantResp, "Vary")
+			hdr.Del("Vary")
+			if wantResp.Get("Content-Encoding") == "" && hdr.Get("Content-Encoding") == "gzip" {
+				hdr.Del("Content-Encoding")
+				if q.method != "HEAD" && len(body) > 0 {
+					zr, zerr := gzip.NewReader(bytes.NewReader(body))
+					if zerr != nil {
+						t.Fatalf("response labelled gzip does not decode: %v\n%s", zerr, ctx)
+					}
+					dec, zerr := io.ReadAll(zr)
+					if zerr != nil {
+						t.Fatalf("response labelled gzip does not decode: %v\n%s", zerr, ctx)
+					}
+					body = dec
+				}
+				hx.Class("compressed-by-fabio")
+			}
+			if wantResp.Get("Content-Encoding") != "" {
+				hx.Class("pre-encoded-upstream-body-with-compression-configured")
+			}
+		}
 		for name, vals := range wantResp {
-			if resp.status == 304 && name == "Content-Type" {
+			if resp.status == 304 && (name == "Content-Type" || name == "Content-Encoding") {
 				continue // net/http (the upstream's own server) drops entity headers on 304
 			}
 			if got := hdr[name]; !equalStrings(got, vals) {
